@@ -76,6 +76,24 @@ def boundary_pool(fmt):
     return list(dict.fromkeys(v & ((1 << bits) - 1) for v in out))
 
 
+def demote_pool():
+    """f64 sources around the rounding points of f64 -> f32: for f32 values at the edges of every class (largest finite,
+    smallest normal, largest / smallest subnormal, 1.0, 2^24) the double itself, the midpoints to both f32 neighbours, and
+    the doubles one ulp on either side of each of these; both signs."""
+    import struct
+    out = []
+    for fb in (0x7F7FFFFF, 0x7F7FFFFE, 0x00800000, 0x007FFFFF, 0x00000001, 0x00000002, 0x3F800000, 0x4B800000, 0x33800000):
+        v = struct.unpack("<f", struct.pack("<I", fb))[0]
+        up = struct.unpack("<f", struct.pack("<I", fb + 1))[0] if fb != 0x7F7FFFFF else 2.0 ** 128
+        dn = struct.unpack("<f", struct.pack("<I", fb - 1))[0]
+        for x in (v, (v + up) / 2, (v + dn) / 2, up if up != 2.0 ** 128 else v):
+            b = f64bits(x)
+            for d in (-1, 0, 1):
+                out += [b + d, (b + d) | (1 << 63)]
+    out += [f64bits(2.0 ** 128), f64bits(2.0 ** 128) - 1, f64bits(2.0 ** -150), f64bits(2.0 ** -150) + 1, f64bits(2.0 ** -150) - 1, f64bits(2.0 ** -149)]
+    return list(dict.fromkeys(v & ((1 << 64) - 1) for v in out))
+
+
 def ipool(bits, rng, n):
     M = (1 << bits) - 1
     vals = [0, 1, M, 1 << (bits - 1), (1 << (bits - 1)) - 1, (1 << (bits - 1)) + 1]
@@ -178,7 +196,8 @@ def grid_items(rng, npool, nbin, rot, tier="quick", classes=True):
         funcs.append({"type": types.index(t), "locals": [], "body": [["local.get", 0], [op], ["end"]]})
         exports.append({"name": name, "kind": "func", "idx": len(funcs) - 1})
         src = P[fr] + (boundary_pool(fr) if fr in ("f32", "f64") and "trunc" in op else []) + \
-            (tie_pool(32 if fr == "i32" else 64, tier) if fr in ("i32", "i64") and "convert" in op else [])
+            (tie_pool(32 if fr == "i32" else 64, tier) if fr in ("i32", "i64") and "convert" in op else []) + \
+            (demote_pool() if "demote" in op else [])
         calls += [{"op": "call", "inst": 1, "export": name, "args": [val(fr, a)]} for a in dict.fromkeys(src)]
     mod = {"types": types, "funcs": funcs, "exports": exports}
     for j in range(0, len(calls), 500):
